@@ -54,3 +54,46 @@ Theorem C10_iterate_mislabel_refuted :
     /\ map snd l = map snd l' /\ map fst l <> map fst l'.
 Proof. exact iterate_mislabel_refuted. Qed.
 Print Assumptions C10_iterate_mislabel_refuted.
+
+Theorem C10_psearch_total :
+  forall sl target,
+    N.of_nat (length sl) < 4294967296 -> target < u64 -> Forall (fun x => x < u64) sl ->
+    exists i, psearch sl target = SIdx i.
+Proof. exact psearch_total. Qed.
+Print Assumptions C10_psearch_total.
+
+Theorem C10_no_panic_archive_has :
+  forall a h,
+    N.of_nat (length (ax_prefixes a)) < 4294967296 -> addr_prefix h < u64 -> Forall (fun x => x < u64) (ax_prefixes a) ->
+    ahas a h <> Panic.
+Proof. exact no_panic_archive_has. Qed.
+Print Assumptions C10_no_panic_archive_has.
+
+Theorem C10_archive_open_panic_only_alloc :
+  forall file, open_archive file = Panic ->
+    exists f, load_footer file = Ok f /\ (268435456 <= af_nspans f + 1 \/ 268435456 <= af_chunks f).
+Proof. exact archive_open_panic_only_alloc. Qed.
+Print Assumptions C10_archive_open_panic_only_alloc.
+
+Theorem C10_no_panic_archive_refuted :
+  (exists file a h, open_archive file = Ok a /\ aget crc32c file a h = GPanic /\ aiterate crc32c file a = IPanic)
+  /\ (exists file a h, open_archive file = Ok a /\ aget crc32c file a h = GPanic)
+  /\ (exists file, open_archive file = Panic).
+Proof. exact no_panic_archive_refuted. Qed.
+Print Assumptions C10_no_panic_archive_refuted.
+
+Theorem C10_archive_misread_refuted :
+  exists f f' a a' h1 h2 c1 c2, c1 <> c2
+    /\ open_archive f = Ok a /\ open_archive f' = Ok a'
+    /\ aget crc32c f a h1 = GOk c1 /\ aget crc32c f a h2 = GOk c2
+    /\ aget crc32c f' a' h1 = GOk c2 /\ aget crc32c f' a' h2 = GOk c1.
+Proof. exact archive_misread_refuted. Qed.
+Print Assumptions C10_archive_misread_refuted.
+
+Theorem C10_archive_iterate_mislabel_refuted :
+  exists f f' a a' l l',
+    open_archive f = Ok a /\ open_archive f' = Ok a'
+    /\ aiterate crc32c f a = IOk l /\ aiterate crc32c f' a' = IOk l'
+    /\ map snd l = map snd l' /\ map fst l <> map fst l'.
+Proof. exact archive_iterate_mislabel_refuted. Qed.
+Print Assumptions C10_archive_iterate_mislabel_refuted.
